@@ -195,11 +195,19 @@ def check_c03(case, obs):
     if k == "zip":
         m = T.sp["maxsize"]
         for src in (0, 1):
+            mine = [i for i in T.inputs if i["src"] == src]
+            # discipline: at most one emit of this input pending at any time (a producer that awaits each emit)
+            disciplined = True
             for step in range(T.nsteps):
-                acc = sum(1 for i in T.inputs if i["src"] == src and T.done_step.get(i["eid"], 10 ** 9) <= step)
+                pend = sum(1 for i in mine if i["step"] <= step and T.done_step.get(i["eid"], 10 ** 9) > step)
+                if pend > 1:
+                    disciplined = False
+            for step in range(T.nsteps):
+                acc = sum(1 for i in mine if T.done_step.get(i["eid"], 10 ** 9) <= step)
                 paired = sum(1 for d in T.deliv if d["step"] <= step)
-                if acc - paired > m + 1:
-                    out.append(("C03", "C03/bound/zip", "input %d: %d accepted, %d paired, maxsize %d" % (src, acc, paired, m)))
+                if acc - paired > m:
+                    sig = "C03/bound/zip" if disciplined else "C03/bound/zip/concurrent-producers"
+                    out.append(("C03", sig, "input %d: %d accepted, %d paired, maxsize %d" % (src, acc, paired, m)))
                     break
     # (c) no deadlock: when every consumer has finished, no emit is still pending
     if T.drained and k not in ("zip",):
@@ -251,7 +259,8 @@ def check_refs(case, obs, want=("C04", "C05")):
                 else:
                     unfinished = [d for d in delivered_by if d["acked_step"] is None or d["acked_step"] > fs]
                     if unfinished:
-                        out.append(("C04", "C04/early-callback/holder=sink-awaitable/%s" % k,
+                        cls = "non-waiting-node" if k in ("plain", "zip") else k
+                        out.append(("C04", "C04/early-callback/holder=sink-awaitable/%s" % cls,
                                     "callback of element %r fired in step %d while the sink handling it had not finished (finished in step %s)"
                                     % (inp["val"], fs, unfinished[0]["acked_step"])))
         if "C05" in want:
